@@ -93,6 +93,14 @@ fn make_obj_inner(o: &Value, kind: &str) -> Obj {
             let v = IntCounterVec::new(Opts::new("c", "h"), &["l"]).unwrap();
             Obj::IntCounter(v.with_label_values(&["x"]))
         }
+        "gaugevec_child" => {
+            let v = GaugeVec::new(Opts::new("g", "h"), &["l"]).unwrap();
+            Obj::Gauge(v.with_label_values(&["x"]))
+        }
+        "intgaugevec_child" => {
+            let v = IntGaugeVec::new(Opts::new("g", "h"), &["l"]).unwrap();
+            Obj::IntGauge(v.with_label_values(&["x"]))
+        }
         "gauge" => Obj::Gauge(Gauge::new("g", "h").unwrap()),
         "intgauge" => Obj::IntGauge(IntGauge::new("g", "h").unwrap()),
         "histogram" => {
